@@ -2,6 +2,7 @@ package checks
 
 import (
 	"fmt"
+	"github.com/nuetzliches/hookaido/verifharness/storecheck"
 	"sync"
 	"time"
 
@@ -63,5 +64,25 @@ func C04(c *vlib.Ctx) {
 	c.Rule("same recorder and model as C03 in fencing mode with a stale-heavy workload: workers keep every lease id they ever saw and present them after expiry, re-lease, cancel, requeue, ack and dead-letter, in single and batch forms (duplicates inside a batch, blank and unknown ids) over direct Store calls, HTTP and gRPC; a listing of every message at each quiescent point is part of the history, so an effect of a stale call is observed even when its return code looks right. distinct_nontrivial = distinct (backend, transport, operation, outcome, duplicate-answer) classes.")
 	c.Assume("a 204/OK for a stale ack/nack through the Pull/Worker API is legal only if another call of the same class on the same lease id succeeded and was issued before this one returned (documented idempotent duplicate answer); never for extend, never on direct Store calls")
 	leaseHistories(c, "C04", leasecheck.ModeFencing, c.N(48, 2400), 0.6)
+	c04Sequential(c)
 	c.CollectRaces()
+}
+
+// c04Sequential: single-caller sequences under the virtual clock with the
+// snapshot-diff monitor. Workers keep every lease id they ever saw (padded,
+// duplicated inside batches, blank, unknown) and present it after every kind
+// of release; each reply is judged against the lease table of the snapshot
+// taken before the call, each effect against the snapshot taken after it.
+func c04Sequential(c *vlib.Ctx) {
+	w := map[storecheck.Kind]int{storecheck.KEnqueue: 8, storecheck.KDequeue: 14, storecheck.KAck: 5, storecheck.KNack: 6, storecheck.KExtend: 5, storecheck.KDead: 5,
+		storecheck.KAckBatch: 6, storecheck.KNackBatch: 6, storecheck.KDeadBatch: 6, storecheck.KCancel: 3, storecheck.KRequeue: 3, storecheck.KResume: 2, storecheck.KAdvance: 16}
+	seqs := c.N(10, 600)
+	for _, be := range []string{"memory", "sqlite"} {
+		for s := 0; s < seqs; s++ {
+			r := vlib.Derive(c.Seed, "C04seq", be, s)
+			g := storecheck.GenCfg{NIDs: r.Range(4, 16), Routes: stdRoutes[:2], Targets: stdTargets[:2], Weights: w, PaddedLeases: true}
+			storecheck.RunSequence(c, r, storecheck.RunCfg{Backends: []string{be}, Gen: g, Steps: r.Range(60, 140),
+				Label: fmt.Sprintf("C04/seq/%s/seq%d", be, s), Props: map[string]bool{"C04": true}})
+		}
+	}
 }
